@@ -6,7 +6,7 @@ patch=$(readlink -f "$1"); tier=$2; shift 2
 cd "$(dirname "$0")/.."
 mkdir -p /tmp/mut
 W=$(mktemp -d /tmp/mut/eval.XXXXXX); rmdir $W
-git -C /repo worktree add -q --detach $W HEAD || exit 3
+git -C /repo worktree add -q --detach $W ${MUT_BASE:-HEAD} || exit 3
 trap 'git -C /repo worktree remove --force $W >/dev/null 2>&1; rm -rf $W.out' EXIT
 if ! git -C $W apply "$patch"; then echo "PATCH-DOES-NOT-APPLY $patch"; exit 3; fi
 export VF_REPO=$W VF_EVIDENCE_DIR=$W.out/evidence VF_REPLAY_DIR=/tmp/mut/replays
